@@ -1,5 +1,5 @@
 """C02 — serialization is total, size-exact and layers never overwrite each other."""
-import os, re
+import os, re, struct
 import common as C
 import pktcommon as PC
 
@@ -70,6 +70,29 @@ def run(ctx):
                 scripts.append(('y%d' % len(scripts), ['new ' + t[0]] + prep + ['set 0 %s %d' % (t[1], v), 'raw x5041594c4f414421', 'ser']))
                 if t[0] == 'ICMPv6':
                     scripts.append(('y%d' % len(scripts), ['new IPv6', 'push ICMPv6'] + [p.replace('set 0', 'set 1') for p in prep] + ['set 1 %s %d' % (t[1], v), 'raw x5041594c4f414421', 'ser', 'ser']))
+    # ICMP / ICMPv6 error messages with RFC 4884 extensions in front of quoted payloads around the 128-byte mark (the layer
+    # zero-pads the quoted datagram itself, with a raw memset), alone and under IP / IPv6
+    for cls, ty, outer in (('ICMP', 3, None), ('ICMP', 11, 'IP'), ('ICMPv6', 3, None), ('ICMPv6', 1, 'IPv6')):
+        for n in list(range(0, 9)) + list(range(120, 141)) + [200, 255, 256]:
+            pl = bytes(rng.randrange(1, 256) for _ in range(n))
+            k = 1 if outer else 0
+            pre = (['new ' + outer, 'push ' + cls] + (['set 0 src_addr 167772161'] if outer == 'IP' else [])) if outer else ['new ' + cls]
+            scripts.append(('e%d' % len(scripts), pre + ['set %d type %d' % (k, ty), 'icmpext %d x%s' % (k, bytes(rng.randrange(256) for _ in range(rng.choice([0, 4, 8]))).hex())] +
+                            (['raw x' + pl.hex()] if n else []) + ['ser', 'ser']))
+    # RTP: every combination of padding bit, extension bit with 0..2 extension words, CSRC count, payload and padding length
+    for p_bit in (0, 1):
+        for x_bit in (0, 1):
+            for cc in (0, 1, 2):
+                for words in ((0,) if not x_bit else (0, 1, 2)):
+                    for npay in (0, 1, 8, 20):
+                        for pad in ((0,) if not p_bit else (1, 2, 4)):
+                            b = bytes([0x80 | (p_bit << 5) | (x_bit << 4) | cc, 96]) + struct.pack('>HII', 7, 1000, 0xdeadbeef) + bytes(range(1, 4 * cc + 1))
+                            if x_bit:
+                                b += struct.pack('>HH', 0xbede, words) + bytes(range(0x40, 0x40 + 4 * words))
+                            b += bytes(0xc0 + (i % 32) for i in range(npay))
+                            if p_bit:
+                                b += bytes(pad - 1) + bytes([pad])
+                            scripts.append(('r%d' % len(scripts), ['parse RTP x' + b.hex(), 'ser', 'rt RTP']))
     # cached layers in front of a payload, serialised twice
     for cname in ('UDP', 'TCP', 'IP', 'ICMP', 'EthernetII'):
         for n in (0, 1, 8, 36, 300):
